@@ -14,7 +14,7 @@ RULE = 'one program = one (configuration, optimisation level) encoding; one eval
 
 def jobs(tier, seed):
     out = []
-    cj = [j for j in c01.jobs('quick', seed) if not j['cfg']['symnames'] and j['cfg']['pad'] < 0 and not (j['cfg']['ex_group'] == 1 and j['cfg']['ex_nlen'] > 1)]
+    cj = [j for j in [x for x in c01.jobs('quick', seed) if x.get('name') != 'hist'] if not j['cfg']['symnames'] and j['cfg']['pad'] < 0 and not (j['cfg']['ex_group'] == 1 and j['cfg']['ex_nlen'] > 1)]
     sel = cj[::5] if tier == 'quick' else cj[::2]
     for j in sel: out.append(dict(j, family='api'))
     names = ('zeros1+block3', 'zero_prologue', 'analog_empty', 'sparse_ids', 'labels_fewer', 'events3', 'no_points') if tier == 'quick' else None
